@@ -405,7 +405,11 @@ fn replay(path: &str) -> i32 {
     };
     quiet_panics();
     let prop = v["property"].as_str().unwrap_or("?").to_string();
-    match cvh::replay::replay(&v) {
+    let res = match v["engine"].as_str().unwrap_or("") {
+        "pratt" => eng_pratt::replay(&v),
+        _ => cvh::replay::replay(&v),
+    };
+    match res {
         Ok(None) => {
             println!("replay: case no longer mismatches");
             0
